@@ -11,6 +11,7 @@ mod c09;
 mod c10;
 mod c12;
 mod c13;
+mod c15;
 mod c17;
 mod crdt;
 mod gen;
@@ -50,6 +51,7 @@ fn main() {
             "C10" => c10::replay(&case),
             "C12" => c12::replay(&case),
             "C13" => c13::replay(&case),
+            "C15" => c15::replay(&case),
             "C17" => c17::replay(&case),
             _ => {
                 eprintln!("no replay for property {prop:?}");
@@ -76,6 +78,7 @@ fn main() {
         "C10" => c10::run(tier),
         "C12" => c12::run(tier),
         "C13" => c13::run(tier),
+        "C15" => c15::run(tier),
         "C17" => c17::run(tier),
         _ => usage(),
     };
